@@ -4,7 +4,8 @@ from props import common, mix, sched
 
 THM = "NextestModel.Thm.C14"
 THM_EXTRA = ["NextestModel.Thm.C14Groups"]
-GEN = []
+GEN = ["tables"]
+GEN_GROUPS = ["spawn"]
 TRUSTED = ["model: Model/Sched, read from future-queue 0.4.0's source and corresponded against the real crate (third-party code: modelled and corresponded, not assumed)",
            "that an OS process does not outlive its future is C11's group-kill argument plus the end-to-end engine"]
 ASSUMPTIONS = ["that every attempt of a test sees the same FutureQueueContext (created once per future) and that the slots reach the process environment is exercised end-to-end only"]
